@@ -24,7 +24,7 @@ for pid in allp:
         "engine": "vcheck",
         "level_claimed": {"category": "model_checking", "text": p.get("claim", ""), "design_ref": f"DESIGN.md §7 {pid}"},
         "level_note": NOTE + (" " + p["note"] if p.get("note") else ""),
-        "technique": TECH,
+        "technique": TECH + (("; " + p["technique_extra"]) if p.get("technique_extra") else ""),
     })
 m = {
     "version": 1,
@@ -35,7 +35,7 @@ m = {
                  "kind_free_text": "bounded symbolic executor for Go SSA (fork of golang.org/x/tools/go/ssa/interp v0.29.0) with String/Int/Bool SMT terms, DART-style re-execution, cvc5 back end, native replay"}],
     "checks": checks,
     "not_applicable": [{"property_id": pid, "reason": na_reasons.get(pid, "check not built yet (work in progress)")} for pid in allp if pid not in props],
-    "notes": "See DESIGN.md. Known findings: known_findings.json. Seeded breaking changes and which checks catch them: seeded/ and DESIGN.md §12.",
+    "notes": "See DESIGN.md. Known findings: known_findings.json. Seeded breaking changes and which checks catch them: seeded/ and DESIGN.md §10.",
 }
 json.dump(m, open(os.path.join(here, 'MANIFEST.json'), 'w'), indent=1)
 print("MANIFEST.json:", len(checks), "checks,", len(m["not_applicable"]), "not applicable")
